@@ -3,7 +3,7 @@ import json
 import os
 import random
 
-from .. import common as C, relfacts as RF, relations as R, battery as B
+from .. import common as C, relfacts as RF, relations as R, battery as B, programs as PG
 
 
 def binop_events(ev, rels, seed, reps):
@@ -79,6 +79,13 @@ def run(tier):
     else:
         k = res.distinct - 1
         chk.violation('binop_trace_rejected', f'Trace_Ops rejected event {k}: {bev[k] if k < len(bev) else None}', bev[k] if k < len(bev) else None)
+    # ---- Layer A.2b: K2 across types: TLC-simulated programs chaining relations of the whole graph, replayed through the evaluator
+    pr = PG.run(out, 4000 if not thorough else 60000, wd)
+    chk.add_tlc('Programs simulate (cross-type programs over the relation graph)', pr['tlc'])
+    chk.cov['traces_validated_against_impl'] += pr['behaviours']
+    for m in pr['mismatches'][:20]:
+        chk.violation(f"program_step:{m['a']['q']}{m['op'] or ' ctor '}{m['b']['q']}->{m['result_type']}", f"program step {m['act']} in {m['num']}: spec {m['spec']} impl {m['impl']}", m)
+    chk.layer('A.programs', behaviours=pr['behaviours'], steps=pr['steps'], relation_steps_x_numeric_types=pr['relation_steps'], distinct_relations=pr['distinct_relations'], sample=pr['sample'][:6])
     # ---- Layer A.3: K2 histories of Store.tla replayed on every type; Layer B: bitwise arithmetic on random reals
     exe, qs, ks = B.build()
     mc = C.run_tlc('MC_Store', 'MC_Store_3.cfg', workers=8, timeout=900)
